@@ -15,7 +15,7 @@ tvars == <<l, tm, exp, drift, ok>>
 
 TInit == l = 1 /\ tm = TmInit /\ exp = << >> /\ drift = {} /\ ok = TRUE
 
-D(c, m) == IF c /\ ok THEN {<<m, l>>} ELSE {}
+D(c, m) == IF c /\ ok /\ Cardinality(drift) < 50 THEN {<<m, l>>} ELSE {}
 
 \* registry of keys by the harness's timer ids; `items` maps callback item -> tid
 KeyOf(s, tid) == s.keys[tid]
